@@ -65,8 +65,8 @@ class _SimFile(MemoryFile):
                 torn.modified = fs.clock.now()
                 fs.store[self.path] = torn
             raise OSError(errno.ENOSPC, "injected: no space left on device (%s)" % self.path)
+        fs.store[self.path] = self
         self.modified = fs.clock.now()
-        super().commit()
 
 
 class SimFS(MemoryFileSystem):
@@ -113,10 +113,36 @@ class SimFS(MemoryFileSystem):
         MemoryFileSystem.store = cls.store
         MemoryFileSystem.pseudo_dirs = cls.pseudo_dirs
 
+    def _decorate(self, info):
+        # real stores report a modification time; identity of a file = (path, size, mtime)
+        if isinstance(info, dict) and info.get("type") == "file":
+            f = type(self).store.get(info["name"])
+            if f is not None:
+                m = f.modified
+                info = dict(info, mtime=m.timestamp(), created=f.created.timestamp() if hasattr(f.created, "timestamp") else f.created)
+        return info
+
+    def info(self, path, **kwargs):
+        return self._decorate(super().info(path, **kwargs))
+
     def ls(self, path, detail=True, **kwargs):
         out = super().ls(path, detail=detail, **kwargs)
+        if detail:
+            out = [self._decorate(o) for o in out]
         if type(self).permute_listing and len(out) > 1:
             out = list(out)
+            type(self).list_rng.shuffle(out)
+        return out
+
+    def find(self, path, maxdepth=None, withdirs=False, detail=False, **kwargs):
+        out = super().find(path, maxdepth=maxdepth, withdirs=withdirs, detail=detail, **kwargs)
+        if detail:
+            items = [(k, self._decorate(v)) for k, v in out.items()]
+            if type(self).permute_listing and len(items) > 1:
+                type(self).list_rng.shuffle(items)
+            return dict(items)
+        out = list(out)
+        if type(self).permute_listing and len(out) > 1:
             type(self).list_rng.shuffle(out)
         return out
 
